@@ -23,11 +23,11 @@ func (m *c12mctx) opBinary(x *ast.BinaryExpr) {
 	logic := op == token.LAND || op == token.LOR
 
 	// 1: int operand -> string literal; 2: -> another integer kind
-	if (arith || bitw || cmp) && isIntT(tx) && isIntT(ty) {
+	if (arith || bitw || cmp) && c12isIntT(tx) && c12isIntT(ty) {
 		for _, side := range []ast.Expr{x.X, x.Y} {
 			m.replace("01-operand-string/"+op.String(), side, `"zz"`)
 			st := m.typeOf(side)
-			if !isUntypedT(st) {
+			if !c12isUntypedT(st) {
 				other := "int8"
 				if b, ok := st.Underlying().(*types.Basic); ok && b.Kind() == types.Int8 {
 					other = "uint16"
@@ -37,14 +37,14 @@ func (m *c12mctx) opBinary(x *ast.BinaryExpr) {
 		}
 	}
 	// also float and string operands against a literal of the wrong kind
-	if (arith || cmp) && isFloatT(tx) && isFloatT(ty) {
+	if (arith || cmp) && c12isFloatT(tx) && c12isFloatT(ty) {
 		m.replace("01-operand-string-float/"+op.String(), x.Y, `"zz"`)
 	}
 	if (op == token.ADD || cmp) && isStringT(tx) && isStringT(ty) {
 		m.replace("01-operand-int-string/"+op.String(), x.Y, "12345")
 	}
 	// 3: % & | ^ &^ on floats
-	if arith && op != token.REM && isFloatT(tx) && isFloatT(ty) && !(m.isConst(x.X) && m.isConst(x.Y)) {
+	if arith && op != token.REM && c12isFloatT(tx) && c12isFloatT(ty) && !(m.isConst(x.X) && m.isConst(x.Y)) {
 		for _, bad := range []string{"%", "&", "|", "^", "&^"} {
 			m.splice("03-intop-on-float/"+bad, opFrom, opTo, bad)
 		}
@@ -62,29 +62,29 @@ func (m *c12mctx) opBinary(x *ast.BinaryExpr) {
 		}
 	}
 	// && on ints
-	if (arith || bitw) && isIntT(tx) && isIntT(ty) {
+	if (arith || bitw) && c12isIntT(tx) && c12isIntT(ty) {
 		m.splice("04-logic-on-int/&&", opFrom, opTo, "&&")
 	}
 	// 6: shifts
 	if shift {
 		m.replace("06-shift-of-float/lit", x.X, "1.5")
-		if !isUntypedT(tx) {
+		if !c12isUntypedT(tx) {
 			m.replace("06-shift-of-float/conv", x.X, "float64("+m.text(x.X)+")")
 		}
 		m.replace("06-shift-of-string", x.X, `"zz"`)
 		m.replace("06-shift-count-string", x.Y, `"2"`)
 		m.replace("06-shift-count-float/lit", x.Y, "2.5")
-		if !isUntypedT(ty) {
+		if !c12isUntypedT(ty) {
 			m.replace("06-shift-count-float/conv", x.Y, "float64("+m.text(x.Y)+")")
 		}
 		m.replace("06-shift-count-negative", x.Y, "-1")
 	}
-	if arith && isIntT(tx) && isIntT(ty) && !isUntypedT(tx) && op != token.REM && op != token.QUO {
+	if arith && c12isIntT(tx) && c12isIntT(ty) && !c12isUntypedT(tx) && op != token.REM && op != token.QUO {
 		// turn an arithmetic operator into a shift by a float
 		m.splice("06-shift-count-float/op", opFrom, m.off(x.Y.End()), "<< 2.5")
 	}
 	// 7: comparisons
-	if (op == token.EQL || op == token.NEQ) && !isUntypedT(tx) {
+	if (op == token.EQL || op == token.NEQ) && !c12isUntypedT(tx) {
 		c := c12class(tx)
 		switch c {
 		case "bool", "Nbool", "struct", "ptr", "iface", "eface", "map", "slice", "func", "chan":
@@ -109,12 +109,12 @@ func (m *c12mctx) opBinary(x *ast.BinaryExpr) {
 			}
 		}
 	}
-	if cmp && !isUntypedT(tx) && !isUntypedT(ty) {
+	if cmp && !c12isUntypedT(tx) && !c12isUntypedT(ty) {
 		if sib := c12sibling(tx); sib != "" {
 			m.replace("07-cmp-mismatched-named/"+op.String(), x.X, sib+"("+m.text(x.X)+")")
 		}
 	}
-	if (arith || bitw) && !isUntypedT(tx) && !isUntypedT(ty) {
+	if (arith || bitw) && !c12isUntypedT(tx) && !c12isUntypedT(ty) {
 		if sib := c12sibling(tx); sib != "" {
 			m.replace("02-operand-othernamed/"+op.String(), x.X, sib+"("+m.text(x.X)+")")
 		}
@@ -123,7 +123,7 @@ func (m *c12mctx) opBinary(x *ast.BinaryExpr) {
 	if op == token.QUO || op == token.REM {
 		if m.isConst(x.Y) {
 			m.replace("12-const-div-zero/"+op.String()+"/"+c12class(tx), x.Y, "0")
-			if isFloatT(tx) {
+			if c12isFloatT(tx) {
 				m.replace("12-const-div-zero/"+op.String()+"/"+c12class(tx)+"/0.0", x.Y, "0.0")
 			}
 		}
@@ -161,10 +161,10 @@ func (m *c12mctx) opUnary(x *ast.UnaryExpr) {
 	to := from + len(x.Op.String())
 	switch x.Op {
 	case token.SUB, token.ADD, token.XOR:
-		if isIntT(t) {
+		if c12isIntT(t) {
 			m.splice("05-not-on-int", from, to, "!")
 		}
-		if isFloatT(t) {
+		if c12isFloatT(t) {
 			m.splice("05-not-on-float", from, to, "!")
 			m.splice("05-bitnot-on-float", from, to, "^")
 		}
@@ -227,9 +227,9 @@ func (m *c12mctx) opIdent(id *ast.Ident) {
 		m.replace("17-undefined-var", id, "undefinedVar")
 		m.replace("33-blank-as-value", id, "_")
 		switch {
-		case isIntT(t):
+		case c12isIntT(t):
 			m.replace("05-wrap-not-on-int", id, "!"+id.Name)
-		case isFloatT(t):
+		case c12isFloatT(t):
 			m.replace("05-wrap-bitnot-on-float", id, "^"+id.Name)
 		case isStringT(t):
 			m.replace("05-wrap-neg-on-string", id, "-"+id.Name)
@@ -480,13 +480,13 @@ func (m *c12mctx) opExpected(e ast.Expr) {
 		m.replace(strings.Replace(what, what[:2], "19", 1)+"/iface<-partial", e, "Namer(unit)")
 	}
 	// 8: another named type with identical underlying type
-	if have != nil && !isUntypedT(have) {
+	if have != nil && !c12isUntypedT(have) {
 		if sib := c12sibling(have); sib != "" && types.Identical(have, want) {
 			m.replace(strings.Replace(what, what[:2], "08", 1)+"/othernamed-"+c12class(have), e, sib+"("+m.text(e)+")")
 		}
 	}
 	// unnamed int into a named int variable needs a conversion too
-	if n, ok := want.(*types.Named); ok && isIntT(want) && n.Obj().Name() == "MyInt" {
+	if n, ok := want.(*types.Named); ok && c12isIntT(want) && n.Obj().Name() == "MyInt" {
 		m.replace(strings.Replace(what, what[:2], "08", 1)+"/int-to-named", e, "total")
 	}
 	// 11: constants out of range for the typed destination
